@@ -53,4 +53,16 @@ class DownChunkingPlugin(Plugin):
                     f"Plugin {self.__class__.__name__} should yield (dict of) "
                     "strax.Chunk in compute method."
                 )
+            # The yielded chunks must be what the plugin promised, as for other plugins
+            if isinstance(_result, dict):
+                promised = _result.items()
+            else:
+                promised = [(self.provides[0], _result)]
+            for d, v in promised:
+                if v.data_type != d:
+                    raise ValueError(
+                        f"{self.__class__.__name__} returned a Chunk with data_type "
+                        f"{v.data_type} instead of {d}."
+                    )
+                self._check_dtype(v.data, d)
             yield self.superrun_transformation(_result, superrun, subruns)
